@@ -145,6 +145,8 @@ def run(ctx):
                 why.append("recovers")
             if mj["unlogged"]:
                 why.append("model-invokes-unlogged")
+            if mj.get("implementorsOK") is False:
+                why.append("generated-implementors-lists-differ-from-schema")
             # Spec verdict computed by the driver: Impl model vs Spec on this oracle
             if mj.get("spec") not in (None, "agree"):
                 why.append("spec:" + mj["spec"])
